@@ -7,9 +7,9 @@ from vlib import *
 import artgen
 
 PROPS = {
-    'C01': ['Properties/Properties_C01.v', 'Properties/Properties_C01b.v'],
-    'C02': ['Properties/Properties_C02.v'],
-    'C10': ['Properties/Properties_C10.v'],
+    'C01': ['Properties/Properties_C01.v', 'Properties/Properties_C01b.v', 'Properties/Properties_C01g.v'],
+    'C02': ['Properties/Properties_C02.v', 'Properties/Properties_C02g.v'],
+    'C10': ['Properties/Properties_C10.v', 'Properties/Properties_C10g.v'],
 }
 OPS_OF = {'C01': 'NIRGEC', 'C02': 'SFQ', 'C10': 'D'}
 CLASSES = ['db', 'mutex', 'olc']
